@@ -5,6 +5,9 @@ arithmetic explicit; chunked per-thread event lists and saveLog as a string buil
 coq/C20/Properties.v.  Correspondence: the extracted model and the real code are run on the same cases;
 the files written by the real code are decoded by independent python readers (netpbm/PFM reader, json)
 and compared with the input, and compared byte for byte with the model's output."""
+import array
+import concurrent.futures
+import hashlib
 import json
 import os
 import re
@@ -51,18 +54,28 @@ def read_image(data, fmt):
     payload = data[pos:]
     if len(payload) < need:
         raise ValueError("payload has %d bytes, %d needed" % (len(payload), need))
-    comps = [int.from_bytes(payload[i * csize:(i + 1) * csize], "little") for i in range(w * h * ncomp)]
+    if csize == 1:
+        comps = list(payload[:need])
+    elif csize == 4 and sys.byteorder == "little":
+        a = array.array("I")
+        a.frombytes(payload[:need])
+        comps = a.tolist()
+    else:
+        comps = [int.from_bytes(payload[i * csize:(i + 1) * csize], "little") for i in range(w * h * ncomp)]
     return w, h, comps
 
 
 def required_image(fmt, w, h, vals):
     _, _, _, _, pixcomp, flip, sel = FMT[fmt]
     out = []
+    n = len(sel)
     for y in range(h):
         row = h - 1 - y if flip else y
-        for x in range(w):
-            for c in sel:
-                out.append(vals[(row * w + x) * pixcomp + c])
+        base = row * w * pixcomp
+        line = [0] * (w * n)
+        for j, c in enumerate(sel):                 # channel c of every pixel of the row (extended slices: C speed on wide rows)
+            line[j::n] = vals[base + c:base + w * pixcomp:pixcomp]
+        out += line
     return out
 
 
@@ -106,11 +119,33 @@ def image_sizes(ctx):
     return s
 
 
+WIDE = [255, 256, 257, 1023, 1024, 1025, 4095, 4096, 4097, 8191, 8193, 16385]
+
+
+def wide_sizes(ctx):
+    s = [(w, h) for w in WIDE for h in (1, 2, 3)] + [(1 + k % 3, n) for k, n in enumerate(WIDE)]
+    if ctx.thorough():
+        s += [(w, h) for w in (2047, 2049, 16383, 16384) for h in (1, 2)] + [(3, 16384), (257, 255), (1025, 17)]
+    return s
+
+
 def run_images(ctx, model, exe):
     r = ctx.rng("images")
     outroot = os.path.join(ctx.build, "img")
     shutil.rmtree(outroot, ignore_errors=True)
     os.makedirs(outroot)
+    nwide = {}
+    wsizes = wide_sizes(ctx)
+    wseeds = {fmt: [r.randrange(1 << 16) for _ in wsizes] for fmt in FMT}
+    wlines = {fmt: ["%d %d %d" % (w, h, sd) for (w, h), sd in zip(wsizes, wseeds[fmt])] for fmt in FMT}
+
+    def run_model_wide(fmt):
+        return ctx.run_exe("/bin/bash", ["-c", 'ulimit -s unlimited 2>/dev/null || ulimit -s 4000000; exec "$0" "$@"', model, "imgpat", fmt],
+                           stdin="\n".join(wlines[fmt]) + "\n", timeout=600)
+    # the extracted model is linear in the image size but slow per component: the six runs go on in the background (4 at a time)
+    pool = concurrent.futures.ThreadPoolExecutor(max_workers=4)
+    mfut = {fmt: pool.submit(run_model_wide, fmt) for fmt in ("PFM4", "PFM3a", "PFM3", "PPM", "PGM", "PFM1")}   # longest first
+    pending = []
     sizes = image_sizes(ctx)
     hist = {}
     reps = ctx.pick(2, 6)
@@ -131,6 +166,9 @@ def run_images(ctx, model, exe):
         if rc != 0 or len(mlines) != len(cases):
             ctx.broken.append("model driver failed on images %s rc=%s %s" % (fmt, rc, merr[-300:]))
             continue
+        if any(l.startswith("FASTPATH-MISMATCH") for l in mlines):
+            ctx.broken.append("driver: the linear evaluation of the model's index list disagrees with Model.writeImage (%s)" % fmt)
+            mlines = [l.replace("FASTPATH-MISMATCH ", "") for l in mlines]
         hist[fmt] = len(cases)
         ctx.count(len(cases))
         # run the real code; restart after a crash so the remaining cases are still seen
@@ -196,6 +234,75 @@ def run_images(ctx, model, exe):
                               % (API[fmt], cases[i][0], cases[i][1], a[:120], b[:120]))
         if len(ctx.samples) < 2 and 5 in files:
             ctx.sample({"api": API[fmt], "w": cases[5][0], "h": cases[5][1], "file_hex": open(files[5], "rb").read().hex()[:120]})
+    # ---- wide / tall images: sizes at powers of two +-1 up to 2^14 (where an internal chunking of rows would change behaviour), the buffer
+    # filled by a pattern (bytes: (seed + 37 i + 101 (i div 251)) mod 256 — equal only at shifts no chunk size produces; floats: distinct
+    # bit patterns 0x3f800000 + seed + i), exact-size heap buffer under ASan, decoded and compared; model by digest
+    for fmt in FMT:
+        magic, scale, csize, ncomp, pixcomp, flip, sel = FMT[fmt]
+        seeds, lines = wseeds[fmt], wlines[fmt]
+        od = os.path.join(outroot, "%s_wide" % fmt)
+        os.makedirs(od, exist_ok=True)
+        rc, out, err = ctx.run_exe(exe, ["imgpat", fmt, od], stdin="\n".join(lines) + "\n", timeout=600)
+        got = out.split("\n")[:-1]
+        ctx.count(len(got))
+        nwide[fmt] = len(got)
+        if rc != 0:
+            k = len(got)
+            w, h = wsizes[k] if k < len(wsizes) else (0, 0)
+            ctx.violation("%s(%dx%d) crashed / tripped a sanitizer on an exact-size buffer (rc=%d)" % (API[fmt], w, h, rc),
+                          {"api": API[fmt], "format": fmt, "w": w, "h": h, "seed": seeds[k] if k < len(seeds) else None,
+                           "pixel_components": "pattern, see harness imgpat", "stderr_tail": err[-2500:],
+                           "required": "reads only indices < w*h*PIXEL_COMP", "rerun": "echo %s | %s imgpat %s %s" % (lines[k] if k < len(lines) else "", exe, fmt, od)})
+        worst = None
+        digests = {}
+        for k, path in enumerate(got):
+            (w, h), sd = wsizes[k], seeds[k]
+            n = w * h * pixcomp
+            vals = [(sd + 37 * i + 101 * (i // 251)) & 255 for i in range(n)] if csize == 1 else list(range(0x3f800000 + sd, 0x3f800000 + sd + n))
+            data = open(path, "rb").read()
+            ctx.nontriv("imgpat %s %d %d" % (fmt, w, h))
+            why = image_oracle(data, fmt, w, h, vals)
+            if why:
+                if worst is None or w * h < worst[0]:
+                    worst = (w * h, k, why, data, vals)
+            else:
+                digests[k] = "%d %s" % (len(data), hashlib.md5(data).hexdigest())
+        pending.append((fmt, seeds, lines, digests))
+        if worst:
+            _, k, why, data, vals = worst
+            (w, h), sd = wsizes[k], seeds[k]
+            first = None
+            try:
+                dec = read_image(data, fmt)[2]
+                req = required_image(fmt, w, h, vals)
+                j = next(i for i in range(len(req)) if dec[i] != req[i])
+                row, rem = divmod(j, w * ncomp)
+                first = {"file_row": row, "x": rem // ncomp, "channel": rem % ncomp, "decoded": dec[j], "required": req[j],
+                         "decoded_around": dec[max(0, j - 2):j + 4], "required_around": req[max(0, j - 2):j + 4]}
+            except Exception as e:   # noqa
+                first = {"decode_error": str(e)}
+            ctx.violation("%s(%dx%d): %s" % (API[fmt], w, h, why),
+                          {"api": API[fmt], "format": fmt, "w": w, "h": h, "seed": sd,
+                           "pixel_components": "component i = (seed + 37 i + 101 (i div 251)) mod 256" if csize == 1 else "component i = float with bit pattern 0x3f800000 + seed + i",
+                           "first_differing_pixel": first, "file_length": len(data),
+                           "required": "decoded pixels equal the input (selected channels; rows bottom-up for PPM/PGM)",
+                           "rerun": "echo %d %d %d | %s imgpat %s %s" % (w, h, sd, exe, fmt, od)})
+    def finish_wide():
+        """compare the digests of the wide files with the model's (collected late: the model runs overlap the trace part)"""
+        for (fmt, seeds, lines, digests) in pending:
+            rcm, mout, merr = mfut[fmt].result()
+            mlines = mout.split("\n")[:-1]
+            if rcm != 0 or len(mlines) != len(lines):
+                ctx.broken.append("model driver failed on wide images %s rc=%s %s" % (fmt, rcm, merr[-300:]))
+                continue
+            for k, dg in digests.items():
+                if dg != mlines[k]:
+                    ctx.broken.append("correspondence C20 image model vs %s on %dx%d (pattern seed %d): file length/md5 %s, model %s (file decodes to the input)"
+                                      % (API[fmt], wsizes[k][0], wsizes[k][1], seeds[k], dg, mlines[k]))
+                    break
+        pool.shutdown(wait=True)
+    ctx.cov["wide_image_cases_per_format"] = nwide
+    ctx.cov["wide_image_sizes"] = ["%dx%d" % s for s in wsizes]
     # ---- stack use: rows are small, the image is several times the thread's stack (the row scratch buffer is alloca'd)
     W, H, STACK = 64, 4096, 256 * 1024
     sd = os.path.join(outroot, "stack")
@@ -230,6 +337,7 @@ def run_images(ctx, model, exe):
     ctx.cov["image_small_stack_runs"] = {"w": W, "h": H, "stack_bytes": STACK, "formats_run": nstack}
     ctx.cov["image_cases_per_format"] = hist
     ctx.cov["image_sizes"] = "%d sizes: 1..6 x 1..6, (1,257), (257,1)%s" % (len(sizes), " + thorough extras" if ctx.thorough() else "")
+    return finish_wide
 
 
 # ------------------------------------------------------------------ tracing: cases
@@ -873,8 +981,11 @@ def run(ctx):
     exe = ctx.cxx(["harness.cpp"], "harness", repo_sources=[], sanitize="asan")
     if not model or not exe:
         return
-    run_images(ctx, model, exe)
-    run_trace(ctx, model, exe)
+    finish_wide = run_images(ctx, model, exe)
+    try:
+        run_trace(ctx, model, exe)
+    finally:
+        finish_wide()
     ctx.rule = ("images: every (w,h) in 1..6 x 1..6 plus (1,257),(257,1) (thorough: more) x six writers (writePPM, writePGM, writePFM<float|vec3f|vec3fa|vec4f>), "
                 "distinct component values, exact-size heap buffer under ASan, file decoded by an independent python reader and compared with the input and "
                 "byte-for-byte with the model; non-trivial = more than one pixel.  traces: empty log, threads without events, one event, nesting depth 0..5, "
